@@ -63,6 +63,39 @@ def handle (st : St) (n : Nat) (line : String) : Result := Id.run do
         let f2 := fail f.st n "C17" s!"configured log {(g "log").getD "?"} has a feeder type but is never fed after start-up: the feeder list and the witness map do not describe the same logs"
         return { st := f2.st, out := f.out ++ f2.out }
       return f
+  | "OMS" :: rest =>
+    let g := field rest
+    let msg := ((g "err").bind hexOfString).map (fun b => String.fromUTF8! (ByteArray.mk b.toArray)) |>.getD "?"
+    if (g "alive").getD "0" != "1" then
+      return fail (st.bump "config.main-start") n "C17" s!"omniwitness.Main does not start on the configuration compiled into the binary: {msg.take 200}"
+    else return { st := { (st.bump "config.main-start") with nOK := st.nOK + 1 }, out := [s!"OK {n}"] }
+  | "UB" :: sid :: rest =>
+    let g := field rest
+    match st.sess.get? sid, (g "log").bind hexOfString, (g "cp").bind hexOfString with
+    | some s, some lid, some cp =>
+      let cfg := mkCfg st s false
+      let authentic := match cfg.find lid with
+        | some l => (Wit.parse l cp).isSome
+        | none => false
+      let st := st.bump "burst.forged"
+      if !authentic && (g "accepted").getD "0" != "0" then
+        return fail st n "C02" s!"{(g "accepted").getD "?"} of {(g "clients").getD "?"} simultaneous submissions of one checkpoint that does not authenticate under the log's key were accepted"
+      else return { st := { st with nOK := st.nOK + 1 }, out := [s!"OK {n}"] }
+    | _, _, _ => return { st, out := [s!"BAD {n} UB"] }
+  | "BP" :: rest =>
+    let g := field rest
+    let st := st.bump s!"bastionproc.{(g "phase").getD "?"}"
+    if (g "panics").getD "0" != "0" then
+      return fail st n "C19" s!"the add-checkpoint handler (Prometheus counters, as in production) panicked on {(g "panics").getD "?"} of {(g "requests").getD "?"} requests ({(g "phase").getD "?"}: unknown origins of awkward shapes / many at once)"
+    else if (g "unexpected").getD "0" != "0" then
+      return fail st n "C19" s!"requests naming unknown origins were answered with an undocumented status ({(g "unexpected").getD "?"} of {(g "requests").getD "?"})"
+    else return { st := { st with nOK := st.nOK + 1 }, out := [s!"OK {n}"] }
+  | "BPX" :: rest =>
+    let g := field rest
+    let msg := ((g "msg").bind hexOfString).map (fun b => String.fromUTF8! (ByteArray.mk b.toArray)) |>.getD "?"
+    if (g "died").getD "0" != "0" then
+      return fail st n "C19" s!"the process serving the add-checkpoint endpoint died under client traffic: {msg.take 160}"
+    else return { st := { st with nOK := st.nOK + 1 }, out := [s!"OK {n}"] }
   | "RACE" :: rest =>
     let g := field rest
     let rep := ((g "first").bind hexOfString).map (fun b => String.fromUTF8! (ByteArray.mk b.toArray)) |>.getD "?"
